@@ -309,7 +309,7 @@ Theorem keys_permutation : forall v g pi s, valid_load v g pi s -> wf_outb g = t
   Permutation (map fst (f_tasks (merge_all v g pi s))) (map okey (all_origins g)).
 Proof.
   intros v g pi s Hl Hout Herr. pose proof (valid_load_good v g pi s Hl) as Hgo.
-  destruct Hl as [Hdc Hwf Hpi Hs]. rewrite (merge_all_raw v g pi s Hpi) in *. rewrite finish_err in Herr. rewrite finish_keys.
+  destruct Hl as [Hdc Hcp Hwf Hpi Hs]. rewrite (merge_all_raw v g pi s Hcp Hpi) in *. rewrite finish_err in Herr. rewrite finish_keys.
   unfold all_origins, raw_state in *.
   apply (keys_perm v g pi _ Hwf Hpi Hgo (perm_ops_of v g pi s (wf_graph_vertices g Hwf) Hout Hpi Hs));
     [apply rank_root_le; exact Hpi | exact Herr].
@@ -323,7 +323,7 @@ Proof.
   pose proof (present_holds v g pi s Hl Herr) as HP2. unfold mon_present in HP2.
   unfold mon_dropped. rewrite HP2, andb_true_r. apply andb_true_iff. split.
   - apply Nat.eqb_eq. pose proof (Permutation_length HP) as HL. rewrite !map_length in HL. exact HL.
-  - apply nodupb_NoDup. destruct Hl as [Hdc Hwf Hpi Hs]. rewrite (merge_all_raw v g pi s Hpi), finish_keys.
+  - apply nodupb_NoDup. destruct Hl as [Hdc Hcp Hwf Hpi Hs]. rewrite (merge_all_raw v g pi s Hcp Hpi), finish_keys.
     unfold raw_state. apply (R_table_ok v g _ Hwf). apply good_ops_of; [apply wf_graph_vertices; exact Hwf | exact Hpi | exact Hs].
 Qed.
 
@@ -333,7 +333,7 @@ Theorem collision_fails : forall v g pi s, valid_load v g pi s -> wf_outb g = tr
 Proof.
   intros v g pi s Hl Hout Hc Herr. pose proof (keys_permutation v g pi s Hl Hout Herr) as HP.
   assert (HN : NoDup (map fst (f_tasks (merge_all v g pi s)))).
-  { destruct Hl as [Hdc Hwf Hpi Hs]. rewrite (merge_all_raw v g pi s Hpi), finish_keys.
+  { destruct Hl as [Hdc Hcp Hwf Hpi Hs]. rewrite (merge_all_raw v g pi s Hcp Hpi), finish_keys.
     unfold raw_state. apply (R_table_ok v g _ Hwf). apply good_ops_of; [apply wf_graph_vertices; exact Hwf | exact Hpi | exact Hs]. }
   apply (Permutation_NoDup HP) in HN. apply nodupb_NoDup in HN. congruence.
 Qed.
@@ -343,7 +343,7 @@ Theorem order_declared : forall v g pi s, valid_load v g pi s -> v_declared v = 
   f_err (merge_all v g pi s) = None ->
   map fst (f_tasks (merge_all v g pi s)) = canonical_keys g.
 Proof.
-  intros v g pi s Hl Hd Herr. destruct Hl as [Hdc Hwf Hpi Hs]. rewrite (merge_all_raw v g pi s Hpi) in *.
+  intros v g pi s Hl Hd Herr. destruct Hl as [Hdc Hcp Hwf Hpi Hs]. rewrite (merge_all_raw v g pi s Hcp Hpi) in *.
   rewrite finish_err in Herr. rewrite finish_keys. unfold raw_state, ops_of in *. rewrite Hd in *.
   unfold canonical_keys, all_origins.
   apply (keys_exact v g pi _ Hwf Hpi (good_declared g pi Hpi) (perm_declared g pi Hpi));
